@@ -34,7 +34,7 @@ sys.path.insert(0, HERE)
 from rustfun_parse import FileIndex, Untranslatable  # noqa: E402
 from rustfun_tr import Translator  # noqa: E402
 
-FILES = ["src/bytes.rs", "src/raw/mod.rs", "src/raw/crc32.rs", "src/raw/node.rs", "src/automaton/mod.rs", "src/raw/ops.rs"]
+FILES = ["src/bytes.rs", "src/raw/mod.rs", "src/raw/crc32.rs", "src/raw/node.rs", "src/automaton/mod.rs", "src/raw/ops.rs", "src/automaton/levenshtein.rs"]
 PINNED_PATH = os.path.join(HERE, "srcfuns_pinned.v")
 LAST_DECLS = {}
 LAST_SIGS = {}
@@ -125,6 +125,10 @@ TARGETS = [
                   ("Ref", "start is_match can_match will_always_match accept"))
     for f in fs.split()
 ] + [
+    ("src_fn_DynamicLevenshtein_start", "src/automaton/levenshtein.rs", "DynamicLevenshtein", "start", ("fn",), None, False, None),
+    ("src_fn_DynamicLevenshtein_is_match", "src/automaton/levenshtein.rs", "DynamicLevenshtein", "is_match", ("fn",), None, False, None),
+    ("src_fn_DynamicLevenshtein_can_match", "src/automaton/levenshtein.rs", "DynamicLevenshtein", "can_match", ("fn",), None, False, None),
+    ("src_fn_DynamicLevenshtein_accept", "src/automaton/levenshtein.rs", "DynamicLevenshtein", "accept", ("fn",), None, False, None),
     ("src_fn_Slot_partial_cmp", "src/raw/ops.rs", "Slot", "partial_cmp", ("fn",), None, False, None),
     ("src_fn_Slot_cmp", "src/raw/ops.rs", "Slot", "cmp", ("fn",), None, False, None),
     # Fst::new: the conditions of its four rejecting `if`s
